@@ -773,8 +773,13 @@ class BuiltinMixin:
                 root = root.value if not isinstance(root, ast.Call) else root.func
             rootname = root.id if isinstance(root, ast.Name) else None
             if rootname not in (getattr(p.frame.fn, "local_containers", ()) if p.frame.fn is not None else ()):
-                p.ghost["$ir_dirty"] = f"item store into {rootname} at {w}"
+                self.mark_dirty(p, f"item store into {rootname} at {w}")
             return [(p, NEXT)]
+        if self.lenient and isinstance(base, VRef) and base.cls in self.classes and self.classes[base.cls].mod is None \
+                and not self.classes[base.cls].box and not self.classes[base.cls].fields:
+            # an abstract (field-less) class standing for an unmodelled IR container (e.g. a node's attributes): an IR edit
+            self.mark_dirty(p, f"item store into an unmodelled {base.cls} at {w}")
+            return [(p, NEXT), (p.copy(), ("raise", Exc("AnyException", w)))]
         raise Unsupported(f"item store on {base!r} at {w}")
 
     def setitem_extra(self, p, base, idx, v, node):
